@@ -16,6 +16,7 @@ import (
 	"errors"
 	"io/fs"
 	"net"
+	"os"
 	"time"
 
 	"golang.org/x/tools/txtar"
@@ -24,6 +25,16 @@ import (
 //verif:stub os.ReadFile stubReadFile
 //verif:stub os.MkdirAll stubMkdirAll
 //verif:stub os.WriteFile stubWriteFile
+//verif:stub os.OpenFile stubOpenFile
+//verif:stub os.Create stubCreate
+//verif:stub (*os.File).Write stubFileWrite
+//verif:stub (*os.File).WriteString stubFileWriteString
+//verif:stub (*os.File).Close stubFileClose
+//verif:stub (*os.File).Sync stubFileSync
+//verif:stub (*os.File).Chmod stubFileChmod
+//verif:stub os.Chmod stubChmod
+//verif:stub os.Rename stubRename
+//verif:stub os.Remove stubRemove
 //verif:stub crypto/tls.X509KeyPair stubX509KeyPair
 //verif:stub crypto/x509.ParseCertificate stubParseCertificate
 //verif:stub github.com/magisterquis/curlrevshell/lib/sstls.GenerateSelfSignedCertificate stubGenerate
@@ -64,6 +75,11 @@ var errIO = errors.New("i/o error")
 
 func stubReadFile(name string) ([]byte, error) {
 	reads++
+	if reads > 3 {
+		// whatever the file system answers, start-up looks at the cache a bounded number of times
+		verifAssert(false, "C20.startup-terminates-whatever-the-cache-path-is")
+		verifAssume(false)
+	}
 	switch readClass {
 	case 1:
 		return nil, &fs.PathError{Op: "open", Path: name, Err: fs.ErrNotExist}
@@ -86,6 +102,75 @@ func stubWriteFile(name string, data []byte, perm fs.FileMode) error {
 	}
 	return nil
 }
+
+// The cache path can be written through other calls than os.WriteFile; they share its
+// model.  The path is absent on read (readClass 1) either because nothing is there or because
+// it is a dangling symbolic link: creating it exclusively then fails with EEXIST, creating it
+// plainly fails with ENOENT or succeeds.
+var (
+	dangling  bool
+	openFile  *os.File
+	renames   int
+	closeErrs bool
+)
+
+func stubOpenFile(name string, flag int, perm fs.FileMode) (*os.File, error) {
+	if flag&(os.O_WRONLY|os.O_RDWR) == 0 {
+		verifAssert(false, "C08.cache-opened-for-reading-through-an-unmodelled-call")
+		verifAssume(false)
+	}
+	if flag&os.O_EXCL != 0 && (readClass != 1 || dangling) {
+		return nil, &fs.PathError{Op: "open", Path: name, Err: fs.ErrExist}
+	}
+	if flag&os.O_CREATE == 0 && readClass == 1 {
+		return nil, &fs.PathError{Op: "open", Path: name, Err: fs.ErrNotExist}
+	}
+	writes = append(writes, writeRec{name, nil, perm})
+	if writeFails {
+		return nil, &fs.PathError{Op: "open", Path: name, Err: errIO}
+	}
+	openFile = &os.File{}
+	return openFile, nil
+}
+func stubCreate(name string) (*os.File, error) {
+	return stubOpenFile(name, os.O_RDWR|os.O_CREATE|os.O_TRUNC, 0o666)
+}
+func stubFileWrite(f *os.File, b []byte) (int, error) {
+	if f != openFile || len(writes) == 0 {
+		return 0, errIO
+	}
+	w := &writes[len(writes)-1]
+	w.data = append(w.data, b...)
+	return len(b), nil
+}
+func stubFileWriteString(f *os.File, s string) (int, error) { return stubFileWrite(f, []byte(s)) }
+func stubFileClose(f *os.File) error                        { return nil }
+func stubFileSync(f *os.File) error                         { return nil }
+func stubFileChmod(f *os.File, m fs.FileMode) error {
+	if f == openFile && len(writes) > 0 {
+		writes[len(writes)-1].perm = m
+	}
+	return nil
+}
+func stubChmod(name string, m fs.FileMode) error {
+	for i := range writes {
+		if writes[i].name == name {
+			writes[i].perm = m
+		}
+	}
+	return nil
+}
+func stubRename(from, to string) error {
+	for i := range writes {
+		if writes[i].name == from {
+			writes[i].name = to
+		}
+	}
+	renames++
+	return nil
+}
+func stubRemove(name string) error { return nil }
+
 func stubX509KeyPair(certPEM, keyPEM []byte) (tls.Certificate, error) {
 	pairCalls++
 	pairCert = append([]byte{}, certPEM...)
@@ -150,6 +235,7 @@ func HarnessC08Get() {
 		fileData = nondetBytes(3, 0)
 	}
 	mkdirFails, writeFails = nondetBool(), nondetBool()
+	dangling = readClass == 1 && nondetBool()
 	pairFails, parseFails, genFails = nondetBool(), nondetBool(), nondetBool()
 	useCache := nondetBool()
 	certFile := ""
@@ -187,7 +273,7 @@ func HarnessC08Get() {
 			return
 		}
 		verifAssert(len(writes) == 1 && writes[0].name == certFile && writes[0].perm == 0o600, "C08.cache-file-owner-only-written-once")
-		if len(writes) == 1 {
+		if len(writes) == 1 && (!writeFails || writes[0].data != nil) {
 			a := txtar.Parse(writes[0].data)
 			okShape := len(a.Files) == 2 && a.Files[0].Name == "cert" && a.Files[1].Name == "key"
 			verifAssert(okShape, "C08.saved-archive-shape")
@@ -218,6 +304,7 @@ func HarnessC08RoundTrip() {
 	n := verifParam("n")
 	c, k := pemish(n), pemish(n)
 	writes = nil
+	readClass, dangling = 1, false // nothing at the cache path yet
 	err := SaveCertificate("d/cert.txtar", c, k)
 	verifAssert(err == nil && len(writes) == 1, "C08.rt.saved")
 	if len(writes) != 1 {
